@@ -5,3 +5,5 @@ import OsyrisProofs.C16
 #print axioms Osyris.C16.C16_sphere_component
 #print axioms Osyris.C16.C16_box_row_phys
 #print axioms Osyris.C16.C16_sphere_row_phys
+#print axioms Osyris.C16.C16_box_mask_rows
+#print axioms Osyris.C16.mapM_spec
